@@ -9,15 +9,22 @@ translated from the current source on every run and proved equal to the model in
 (`extents_wf`, `union_wf`, `intersection_wf`); boxes with corners written directly through the public
 attributes may violate it, which is why it appears as an explicit hypothesis where it is needed.
 
-Not proved here (oracle only): containment/tightness of the precise mode for Bézier-approximated arcs,
-ellipses and splines (root finding with `sqrt`), `recursive_decompose`/`virtual_entities`/OCS transformation
-of nested block references.
+Session 3 (section `session3` at the end; proofs in Lemmas/BBoxTree.lean, Lemmas/BBoxCubic.lean, model in
+Model/BBoxTree.lean): paths (`precise_bbox`, `Path.control_vertices`, `path.bbox`), the extremum search of
+`cubic_bezier_bbox`/`quadratic_bezier_bbox` with `sqrt` as a parameter, entity TREES (`recursive_decompose`,
+`virtual_entities`, INSERT transformation incl. the explode fall-back) at any nesting depth, the cache on trees.
+
+Not proved here (oracle only): that the Bézier path `make_path` builds for an arc/ellipse/spline approximates the
+entity within the documented distance; the matrix `Insert.matrix44()` and OCS handling (C12); MINSERT grids.
 -/
 import Mathlib.Algebra.Order.Field.Rat
 import Mathlib.Tactic.Linarith
 import Mathlib.Tactic.Ring
 import Mathlib.Tactic.Positivity
 import EzdxfVerif.Model.BBox
+import EzdxfVerif.Lemmas.BBoxCubic
+import EzdxfVerif.Lemmas.BBoxSelect
+import EzdxfVerif.Lemmas.BBoxArc
 import EzdxfVerif.Gen.BBoxKernels
 namespace EzdxfVerif.Props.C15
 open EzdxfVerif.BBox
@@ -1450,5 +1457,616 @@ theorem kernel_bezier (p0 p1 p2 p3 t : Rat) :
   · unfold bezier3Point bezier3; ring
 
 end kernels
+
+
+/-! # Session 3: paths, the extremum search, entity trees
+
+Thin statements; the proofs are in `Lemmas/BBoxTree.lean` and `Lemmas/BBoxCubic.lean`. -/
+section session3
+
+/-! ## Bézier curves and paths under affine maps -/
+
+/-- Bézier curves are affinely invariant: transforming the control points transforms every curve point
+    (why the control points of a transformed virtual entity describe the transformed geometry) -/
+theorem bezier_affine_invariant (a : Aff) (p0 p1 p2 p3 : V3) (t : Rat) :
+    bezier4V (a.apply p0) (a.apply p1) (a.apply p2) (a.apply p3) t = a.apply (bezier4V p0 p1 p2 p3 t) ∧
+    bezier3V (a.apply p0) (a.apply p1) (a.apply p2) t = a.apply (bezier3V p0 p1 p2 t) :=
+  ⟨Lemmas.bezier4V_map a p0 p1 p2 p3 t, Lemmas.bezier3V_map a p0 p1 p2 t⟩
+
+/-- `Path.transform(m)`: the image of every point of a (multi-)path is a point of the transformed path -/
+theorem path_affine_invariant (a : Aff) (p : Path) (q : V3) (h : OnPath p q) : OnPath (p.map a) (a.apply q) :=
+  Lemmas.onPath_map a p q h
+
+/-- matrices compose: `transform(t)` after `transform(m)` is `transform(t.comp m)`, for points and whole paths -/
+theorem aff_comp_apply (t m : Aff) (p : V3) (pa : Path) :
+    (t.comp m).apply p = t.apply (m.apply p) ∧ pa.map (t.comp m) = (pa.map m).map t ∧ pa.map Aff.one = pa :=
+  ⟨Lemmas.Aff.apply_comp t m p, Lemmas.Path.map_comp t m pa, Lemmas.Path.map_one pa⟩
+
+/-! ## `precise_bbox`, `control_vertices`, `path.bbox` for whole multi-paths -/
+
+/-- fast mode: every point of a multi-path (sub-paths after MOVE_TO included) lies in the control-vertex box -/
+theorem path_fast_contains (p : Path) (q : V3) (h : OnPath p q) : (extents3 p.controlVertices).inside q = true :=
+  Lemmas.fast_contains_path p q h
+
+/-- the pen position `start` of `precise_bbox` after a command is the end point of that command, for EVERY kind
+    of command (the model); `kernel_precise_step` ties the model to the loop body in the current source -/
+theorem pen_follows_every_command (sb : SegBoxes) (s : V3) (c : Cmd) (cs : List Cmd) :
+    (Path.preciseStep sb s c).2 = c.endPoint ∧
+      Path.preciseLoop sb s cs = (segsFrom s cs).flatMap (fun sc => (Path.preciseStep sb sc.1 sc.2).1) :=
+  ⟨Lemmas.preciseStep_pen sb s c, Lemmas.preciseLoop_eq sb cs s⟩
+
+/-- precise mode: if the segment boxes contain their curves, `precise_bbox` contains every point of the
+    multi-path, whatever sub-path it belongs to -/
+theorem path_precise_contains (sb : SegBoxes) (p : Path) (hs : p.SoundOn sb) (q : V3) (h : OnPath p q) :
+    (p.preciseBBox sb).inside q = true :=
+  Lemmas.precise_contains_path sb p hs q h
+
+/-- fast mode is never smaller than precise mode for a whole multi-path (segment boxes inside the control hull) -/
+theorem path_fast_contains_precise (sb : SegBoxes) (hc : sb.InControl) (p : Path) (hne : p.cmds ≠ []) :
+    (extents3 p.controlVertices).contains (p.preciseBBox sb) = true :=
+  Lemmas.fast_contains_precise_path sb hc p hne
+
+/-- precise mode is tight: with tight segment boxes every bound of `precise_bbox` is the coordinate of a point
+    of the path -/
+theorem path_precise_tight (sb : SegBoxes) (ht : sb.Tight) (p : Path) (hne : p.cmds ≠ []) :
+    ∃ lo hi, p.preciseBBox sb = .mk lo hi ∧
+      (∃ q, OnPath p q ∧ q.x = lo.x) ∧ (∃ q, OnPath p q ∧ q.y = lo.y) ∧ (∃ q, OnPath p q ∧ q.z = lo.z) ∧
+      (∃ q, OnPath p q ∧ q.x = hi.x) ∧ (∃ q, OnPath p q ∧ q.y = hi.y) ∧ (∃ q, OnPath p q ∧ q.z = hi.z) :=
+  Lemmas.precise_tight sb ht p hne
+
+/-- `ezdxf.path.tools.bbox(paths, fast)` is the box of the boxes of the paths -/
+theorem paths_bbox_spec (sb : SegBoxes) (fast : Bool) (ps : List Path) :
+    pathsBBox sb fast ps = extendAll (ps.map (Path.box sb fast)) :=
+  Lemmas.pathsBBox_spec sb fast ps
+
+/-! ## the extremum search of `cubic_bezier_bbox` -/
+
+/-- For every `t` in [0, 1] the coordinate of the curve at `t` lies between its values at two of the candidates
+    0, 1 and the parameters the code collects from the quadratic `a t^2 + b t + c = 0` (both roots by the stable
+    formula `q / a`, `c / q`; the linear and the constant case).  `sqrt` is a parameter that only has to be
+    exact at the discriminant (`AxisOK`). -/
+theorem cubic_axis_extrema (tol : Rat) (sqrt : Rat → Option Rat) (p0 p1 p2 p3 : Rat) (hok : AxisOK tol sqrt p0 p1 p2 p3)
+    (t : Rat) (h0 : 0 ≤ t) (h1 : t ≤ 1) :
+    (∃ w ∈ 0 :: 1 :: axisParams tol sqrt p0 p1 p2 p3, bezier4 p0 p1 p2 p3 t ≤ bezier4 p0 p1 p2 p3 w) ∧
+    (∃ w ∈ 0 :: 1 :: axisParams tol sqrt p0 p1 p2 p3, bezier4 p0 p1 p2 p3 w ≤ bezier4 p0 p1 p2 p3 t) :=
+  Lemmas.axis_sound tol sqrt p0 p1 p2 p3 hok t h0 h1
+
+/-- every collected parameter is strictly inside (0, 1) -/
+theorem cubic_params_unit (tol : Rat) (sqrt : Rat → Option Rat) (p0 p1 p2 p3 : V3) :
+    ∀ w ∈ cubicParams tol sqrt p0 p1 p2 p3, 0 < w ∧ w < 1 :=
+  Lemmas.cubicParams_unit tol sqrt p0 p1 p2 p3
+
+/-- `cubic_bezier_bbox` contains the whole curve -/
+theorem cubic_bbox_contains_curve (tol : Rat) (sqrt : Rat → Option Rat) (p0 p1 p2 p3 : V3)
+    (hok : CurveOK tol sqrt p0 p1 p2 p3) (t : Rat) (h0 : 0 ≤ t) (h1 : t ≤ 1) :
+    (cubicBBox tol sqrt p0 p1 p2 p3).inside (bezier4V p0 p1 p2 p3 t) = true :=
+  Lemmas.cubic_sound tol sqrt p0 p1 p2 p3 hok t h0 h1
+
+/-- `quadratic_bezier_bbox` contains the whole quadratic curve (degree elevation is exact) -/
+theorem quadratic_bbox_contains_curve (tol : Rat) (sqrt : Rat → Option Rat) (p0 p1 p2 : V3)
+    (hok : CurveOK tol sqrt p0 (elevV p0 p1) (elevV p2 p1) p2) (t : Rat) (h0 : 0 ≤ t) (h1 : t ≤ 1) :
+    (quadBBox tol sqrt p0 p1 p2).inside (bezier3V p0 p1 p2 t) = true := by
+  have := Lemmas.cubic_sound tol sqrt p0 (elevV p0 p1) (elevV p2 p1) p2 hok t h0 h1
+  rwa [Lemmas.elev_curve] at this
+
+/-- unconditionally (any `sqrt`, any tolerance): the curve boxes of the real code lie in every box that contains
+    the control points, and each of their bounds is attained by a curve point with parameter in [0, 1] -/
+theorem curve_boxes_in_control_and_tight (tol : Rat) (sqrt : Rat → Option Rat) :
+    (realBoxes tol sqrt).InControl ∧ (realBoxes tol sqrt).Tight :=
+  ⟨Lemmas.real_inControl tol sqrt, Lemmas.real_tight tol sqrt⟩
+
+/-- the whole chain for a multi-path with the real curve boxes: fast box ⊇ precise box ⊇ every point of the path,
+    and the precise box is tight -/
+theorem real_path_boxes (tol : Rat) (sqrt : Rat → Option Rat) (p : Path) (hne : p.cmds ≠ []) :
+    (extents3 p.controlVertices).contains (p.preciseBBox (realBoxes tol sqrt)) = true ∧
+    (p.CurvesOK tol sqrt → ∀ q, OnPath p q → (p.preciseBBox (realBoxes tol sqrt)).inside q = true) ∧
+    (∃ lo hi, p.preciseBBox (realBoxes tol sqrt) = .mk lo hi ∧
+      (∃ q, OnPath p q ∧ q.x = lo.x) ∧ (∃ q, OnPath p q ∧ q.y = lo.y) ∧ (∃ q, OnPath p q ∧ q.z = lo.z) ∧
+      (∃ q, OnPath p q ∧ q.x = hi.x) ∧ (∃ q, OnPath p q ∧ q.y = hi.y) ∧ (∃ q, OnPath p q ∧ q.z = hi.z)) :=
+  ⟨Lemmas.fast_contains_precise_path _ (Lemmas.real_inControl tol sqrt) p hne,
+   fun hok q hq => Lemmas.precise_contains_path _ p (Lemmas.real_soundOn tol sqrt p hok) q hq,
+   Lemmas.precise_tight _ (Lemmas.real_tight tol sqrt) p hne⟩
+
+/-! ### no assumption on the size of the coefficients: the `abs_tol` tests cost at most `5/3 * abs_tol` -/
+
+/-- For ANY control values (tiny non-zero leading coefficients `|a| < abs_tol`, `|b| < abs_tol` included, where the code
+    treats the derivative as linear resp. constant) every value of the coordinate on [0, 1] is within `5/3 * abs_tol`
+    of the range spanned by the candidates the code evaluates; only the square roots that are actually taken have to
+    be exact (`AxisSqrtOK`).  Full statement; the exact version `cubic_axis_extrema` is the case `AxisTolOK`. -/
+theorem cubic_axis_extrema_tol (tol : Rat) (sqrt : Rat → Option Rat) (p0 p1 p2 p3 : Rat) (tpos : 0 < tol)
+    (hs : AxisSqrtOK tol sqrt p0 p1 p2 p3) (t : Rat) (h0 : 0 ≤ t) (h1 : t ≤ 1) :
+    (∃ w ∈ 0 :: 1 :: axisParams tol sqrt p0 p1 p2 p3, bezier4 p0 p1 p2 p3 t ≤ bezier4 p0 p1 p2 p3 w + 5 / 3 * tol) ∧
+    (∃ w ∈ 0 :: 1 :: axisParams tol sqrt p0 p1 p2 p3, bezier4 p0 p1 p2 p3 w - 5 / 3 * tol ≤ bezier4 p0 p1 p2 p3 t) :=
+  Lemmas.axis_sound_tol tol sqrt p0 p1 p2 p3 tpos hs t h0 h1
+
+/-- `cubic_bezier_bbox(curve).grow(5/3 * abs_tol)` contains the whole curve, for all control points -/
+theorem cubic_bbox_contains_curve_tol (tol : Rat) (sqrt : Rat → Option Rat) (p0 p1 p2 p3 : V3)
+    (hok : CurveSqrtOK tol sqrt p0 p1 p2 p3) (t : Rat) (h0 : 0 ≤ t) (h1 : t ≤ 1) :
+    ∃ g, (cubicBBox tol sqrt p0 p1 p2 p3).grow (5 / 3 * tol) = some g ∧ g.inside (bezier4V p0 p1 p2 p3 t) = true :=
+  Lemmas.cubic_sound_tol tol sqrt p0 p1 p2 p3 hok t h0 h1
+
+/-- `precise_bbox(path).grow(5/3 * abs_tol)` contains every point of a multi-path, for all control points -/
+theorem real_path_contains_tol (tol : Rat) (sqrt : Rat → Option Rat) (p : Path) (hok : p.CurvesSqrtOK tol sqrt)
+    (tpos : 0 < tol) (q : V3) (hq : OnPath p q) :
+    ∃ g, (p.preciseBBox (realBoxes tol sqrt)).grow (5 / 3 * tol) = some g ∧ g.inside q = true := by
+  have he : (0 : Rat) ≤ 5 / 3 * tol := by linarith
+  obtain ⟨h1, h2⟩ := Lemmas.precise_contains_path_tol (realBoxes tol sqrt) (5 / 3 * tol) he p
+    (Lemmas.real_soundOn_tol tol sqrt p hok) q hq
+  exact ⟨_, h1, h2⟩
+
+-- a curve with a tiny non-zero leading coefficient on the x axis (a = 3e-13 < abs_tol): outside `CurveOK`, inside `CurveSqrtOK`
+#guard decide (CurveSqrtOK (1 / 1000000000000) ratSqrt ⟨0, 0, 0⟩ ⟨1, 1, 0⟩ ⟨2, 1, 0⟩ ⟨3 + 1 / 10000000000000, 0, 0⟩) &&
+  !decide (CurveOK (1 / 1000000000000) ratSqrt ⟨0, 0, 0⟩ ⟨1, 1, 0⟩ ⟨2, 1, 0⟩ ⟨3 + 1 / 10000000000000, 0, 0⟩)
+
+/-- non-vacuity: a multi-path whose second sub-path starts with a curve (the region of seeded change C15-m1);
+    derivative roots 1/4 and 3/4 on the x axis, exact square roots -/
+private def exPath : Path :=
+  ⟨⟨0, 0, 0⟩, [.lineTo ⟨4, 0, 0⟩, .moveTo ⟨10, 0, 0⟩, .curve4To ⟨13, 4, 0⟩ ⟨8, 4, 0⟩ ⟨11, 0, 0⟩, .curve3To ⟨12, -2, 0⟩ ⟨13, 0, 0⟩]⟩
+#guard decide (exPath.CurvesOK (1 / 1000000000000) ratSqrt)
+#guard exPath.preciseBBox (realBoxes (1 / 1000000000000) ratSqrt) == .mk ⟨0, -1, 0⟩ ⟨13, 3, 0⟩
+#guard cubicParams (1 / 1000000000000) ratSqrt ⟨10, 0, 0⟩ ⟨13, 4, 0⟩ ⟨8, 4, 0⟩ ⟨11, 0, 0⟩ == [3/4, 1/4, 1/2]
+#guard extents3 exPath.controlVertices == .mk ⟨0, -2, 0⟩ ⟨13, 4, 0⟩
+-- the pen position matters: measured from the end of the previous sub-path the curve would give another box
+#guard cubicBBox (1 / 1000000000000) ratSqrt ⟨4, 0, 0⟩ ⟨13, 4, 0⟩ ⟨8, 4, 0⟩ ⟨11, 0, 0⟩ != cubicBBox (1 / 1000000000000) ratSqrt ⟨10, 0, 0⟩ ⟨13, 4, 0⟩ ⟨8, 4, 0⟩ ⟨11, 0, 0⟩
+
+/-! ## entity trees: `virtual_entities`, `recursive_decompose`, `extents` at any nesting depth -/
+
+/-- Decomposing the virtual copies behind a stack of pending transformations gives every leaf under the composed
+    matrix of the stack and of its ancestors, whatever `repr` decides for each INSERT (absorb the matrix or fall
+    back to transformed block content) -/
+theorem xform_decompose_spec (repr : Aff → Bool) (ts : List Aff) (f : Forest) (h : f.noAtts = true) :
+    decompose repr (xform repr ts f) = (placements (Lemmas.compAll ts) f).map Lemmas.vleaf :=
+  Lemmas.xform_decompose repr ts f h
+
+/-- `recursive_decompose` of a layout: the paths of the flat stream are the leaves in world coordinates (composed
+    transformation of all ancestors, any depth), and the stream does not depend on the fall-back decisions -/
+theorem decompose_spec (repr repr' : Aff → Bool) (f : Forest) (h : f.plainBlocks = true) :
+    (decompose repr f).map Leaf.path = worldPaths f ∧ decompose repr f = decompose repr' f := by
+  refine ⟨?_, ?_⟩
+  · rw [Lemmas.decompose_top repr f h, Lemmas.topLeaves_paths]
+  · rw [Lemmas.decompose_top repr f h, Lemmas.decompose_top repr' f h]
+
+/-- virtual entities have no key: every keyed entity of the flat stream is a real entity of the layout
+    (a top-level entity or an ATTRIB attached to a top-level INSERT) -/
+theorem virtual_entities_have_no_key (repr : Aff → Bool) (f : Forest) (h : f.plainBlocks = true) :
+    ∀ l ∈ decompose repr f, ∀ k, l.key = some k → k ∈ f.handles := by
+  rw [Lemmas.decompose_top repr f h]; exact Lemmas.topLeaves_keys f
+
+/-- nested_bbox: `extents` of an entity tree is the box of the boxes of ALL leaves, each under the composed
+    transformation of its ancestors, at any nesting depth (fast and precise mode, any `repr`) -/
+theorem nested_bbox (repr : Aff → Bool) (sb : SegBoxes) (fast : Bool) (c : Cache) (f : Forest) (h : f.plainBlocks = true) :
+    extentsOf false c (toEnts repr sb fast f) = (extendAll (Lemmas.worldBoxes sb fast f), c) :=
+  Lemmas.nested_bbox repr sb fast c f h
+
+/-- fast mode: exactly the box of all transformed control vertices -/
+theorem nested_bbox_fast (repr : Aff → Bool) (sb : SegBoxes) (c : Cache) (f : Forest) (h : f.plainBlocks = true) :
+    (extentsOf false c (toEnts repr sb true f)).1 = extents3 ((worldPaths f).flatMap Path.controlVertices) := by
+  rw [Lemmas.nested_bbox repr sb true c f h]; exact Lemmas.nested_bbox_fast sb f
+
+/-- containment at any depth: for every leaf `(T, p)` (`T` the composed matrix of its ancestors) and every point
+    `q` of `p`, the world point `T q` lies in the extents; precise mode needs sound segment boxes on the
+    transformed paths -/
+theorem nested_contains (repr : Aff → Bool) (sb : SegBoxes) (fast : Bool) (c : Cache) (f : Forest)
+    (hs : fast = false → ∀ p ∈ worldPaths f, p.SoundOn sb) (h : f.plainBlocks = true)
+    (tp : Aff × Path) (htp : tp ∈ placements Aff.one f) (q : V3) (hq : OnPath tp.2 q) :
+    (extentsOf false c (toEnts repr sb fast f)).1.inside (tp.1.apply q) = true :=
+  Lemmas.nested_contains repr sb fast c f hs h tp htp q hq
+
+/-- the same with the curve boxes of the real code -/
+theorem nested_contains_real (repr : Aff → Bool) (tol : Rat) (sqrt : Rat → Option Rat) (fast : Bool) (c : Cache) (f : Forest)
+    (hok : fast = false → ∀ p ∈ worldPaths f, p.CurvesOK tol sqrt) (h : f.plainBlocks = true)
+    (tp : Aff × Path) (htp : tp ∈ placements Aff.one f) (q : V3) (hq : OnPath tp.2 q) :
+    (extentsOf false c (toEnts repr (realBoxes tol sqrt) fast f)).1.inside (tp.1.apply q) = true :=
+  Lemmas.nested_contains repr _ fast c f (fun hf p hp => Lemmas.real_soundOn tol sqrt p (hok hf p hp)) h tp htp q hq
+
+/-- precise mode is tight at any nesting depth: with tight segment boxes every bound of the extents of a tree is the
+    coordinate of the world image `T q` of a point `q` of some leaf -/
+theorem nested_tight (repr : Aff → Bool) (sb : SegBoxes) (ht : sb.Tight) (c : Cache) (f : Forest)
+    (h : f.plainBlocks = true) (lo hi : V3) (hb : (extentsOf false c (toEnts repr sb false f)).1 = .mk lo hi) :
+    (∃ tp ∈ placements Aff.one f, ∃ q, OnPath tp.2 q ∧ (tp.1.apply q).x = lo.x) ∧
+    (∃ tp ∈ placements Aff.one f, ∃ q, OnPath tp.2 q ∧ (tp.1.apply q).y = lo.y) ∧
+    (∃ tp ∈ placements Aff.one f, ∃ q, OnPath tp.2 q ∧ (tp.1.apply q).z = lo.z) ∧
+    (∃ tp ∈ placements Aff.one f, ∃ q, OnPath tp.2 q ∧ (tp.1.apply q).x = hi.x) ∧
+    (∃ tp ∈ placements Aff.one f, ∃ q, OnPath tp.2 q ∧ (tp.1.apply q).y = hi.y) ∧
+    (∃ tp ∈ placements Aff.one f, ∃ q, OnPath tp.2 q ∧ (tp.1.apply q).z = hi.z) :=
+  Lemmas.nested_tight repr sb ht c f h lo hi hb
+
+/-- ... in particular with the curve boxes of the real code, for any `sqrt` and tolerance -/
+theorem nested_tight_real (repr : Aff → Bool) (tol : Rat) (sqrt : Rat → Option Rat) (c : Cache) (f : Forest)
+    (h : f.plainBlocks = true) (lo hi : V3)
+    (hb : (extentsOf false c (toEnts repr (realBoxes tol sqrt) false f)).1 = .mk lo hi) :
+    (∃ tp ∈ placements Aff.one f, ∃ q, OnPath tp.2 q ∧ (tp.1.apply q).x = lo.x) ∧
+    (∃ tp ∈ placements Aff.one f, ∃ q, OnPath tp.2 q ∧ (tp.1.apply q).x = hi.x) ∧
+    (∃ tp ∈ placements Aff.one f, ∃ q, OnPath tp.2 q ∧ (tp.1.apply q).y = lo.y) ∧
+    (∃ tp ∈ placements Aff.one f, ∃ q, OnPath tp.2 q ∧ (tp.1.apply q).y = hi.y) ∧
+    (∃ tp ∈ placements Aff.one f, ∃ q, OnPath tp.2 q ∧ (tp.1.apply q).z = lo.z) ∧
+    (∃ tp ∈ placements Aff.one f, ∃ q, OnPath tp.2 q ∧ (tp.1.apply q).z = hi.z) := by
+  obtain ⟨a, b, c', d, e, g⟩ := Lemmas.nested_tight repr _ (Lemmas.real_tight tol sqrt) c f h lo hi hb
+  exact ⟨a, d, b, e, c', g⟩
+
+/-- the converse of `path_affine_invariant`: a point of the transformed path is the image of a point of the path -/
+theorem path_affine_invariant_inv (a : Aff) (p : Path) (q' : V3) (h : OnPath (p.map a) q') :
+    ∃ q, OnPath p q ∧ q' = a.apply q :=
+  Lemmas.onPath_map_inv a p q' h
+
+/-- fast mode is never smaller than precise mode for a whole tree at any depth: every point of the precise extents
+    lies in the fast extents; unconditional for the curve boxes of the real code -/
+theorem nested_fast_contains_precise (repr : Aff → Bool) (tol : Rat) (sqrt : Rat → Option Rat) (c c' : Cache) (f : Forest)
+    (h : f.plainBlocks = true) (q : V3)
+    (hq : (extentsOf false c (toEnts repr (realBoxes tol sqrt) false f)).1.inside q = true) :
+    (extentsOf false c' (toEnts repr (realBoxes tol sqrt) true f)).1.inside q = true :=
+  Lemmas.nested_fast_contains_precise repr _ (Lemmas.real_inControl tol sqrt) c c' f h q hq
+
+/-- containment at any depth without assumptions on the coefficients: the extents (precise mode, real curve boxes)
+    grown by `5/3 * abs_tol` contain the world image of every point of every leaf -/
+theorem nested_contains_real_tol (repr : Aff → Bool) (tol : Rat) (sqrt : Rat → Option Rat) (tpos : 0 < tol) (c : Cache)
+    (f : Forest) (hok : ∀ p ∈ worldPaths f, p.CurvesSqrtOK tol sqrt) (h : f.plainBlocks = true)
+    (tp : Aff × Path) (htp : tp ∈ placements Aff.one f) (q : V3) (hq : OnPath tp.2 q) :
+    ∃ g, (extentsOf false c (toEnts repr (realBoxes tol sqrt) false f)).1.grow (5 / 3 * tol) = some g ∧
+      g.inside (tp.1.apply q) = true := by
+  have he : (0 : Rat) ≤ 5 / 3 * tol := by linarith
+  exact ⟨_, Lemmas.grow_eq_growBox _ _ he, Lemmas.nested_contains_tol repr _ (5 / 3 * tol) he c f
+    (fun p hp => Lemmas.real_soundOn_tol tol sqrt p (hok p hp)) h tp htp q hq⟩
+
+/-- `extents` without a cache is the box of the boxes of all primitives; `multi_flat` and `multi_recursive`
+    describe the same box -/
+theorem multi_flat_vs_recursive (c : Cache) (es : List Ent) :
+    extendAll (multiFlat false c es).1 = extendAll (multiRecursive false c (es.flatMap Ent.prims)).1 ∧
+      (extentsOf false c es).1 = extendAll (multiRecursive false c (es.flatMap Ent.prims)).1 :=
+  Lemmas.flat_vs_recursive c es
+
+/-- the extents depend only on the SET of entities (order and repetitions are irrelevant) ... -/
+theorem extents_order_independent (c c' : Cache) (es es' : List Ent) (h : ∀ e, e ∈ es ↔ e ∈ es') :
+    (extentsOf false c es).1 = (extentsOf false c' es').1 :=
+  Lemmas.extents_set c c' es es' h
+
+/-- ... and never shrink when entities are added -/
+theorem extents_monotone (c c' : Cache) (es es' : List Ent) (h : ∀ e ∈ es, e ∈ es') (q : V3)
+    (hq : (extentsOf false c es).1.inside q = true) : (extentsOf false c' es').1.inside q = true :=
+  Lemmas.extents_mono c c' es es' h q hq
+
+/-- cache transparency over the tree, for every hit/miss pattern: with ANY cache that satisfies the invariant (cold,
+    warm, partially filled by earlier calls on other sub-collections) `extents` of the tree is the box of all
+    transformed leaves, and the invariant is kept -/
+theorem cache_transparent_tree (repr : Aff → Bool) (sb : SegBoxes) (fast : Bool) (truth : Nat → Box3) (c : Cache) (f : Forest)
+    (hc : c.Inv truth) (he : ∀ e ∈ toEnts repr sb fast f, e.Coherent truth) (h : f.plainBlocks = true) :
+    (extentsOf true c (toEnts repr sb fast f)).1 = extendAll (Lemmas.worldBoxes sb fast f) ∧
+      (extentsOf true c (toEnts repr sb fast f)).2.Inv truth := by
+  obtain ⟨_, h2, h3, _⟩ := Lemmas.cache_transparent_ents truth (toEnts repr sb fast f) c c hc he
+  refine ⟨?_, h3⟩
+  rw [h2, Lemmas.nested_bbox repr sb fast c f h]
+
+/-- "Handles are unique" (what the entity database guarantees, C05) is all the cache needs: for a tree with distinct
+    handles the coherence hypothesis holds for the truth function read off the tree, so for ANY sub-collection `es` of its
+    entities, in any order and with repetitions, and ANY cache that is empty or was filled by earlier such calls (`Inv`),
+    `multi_flat`/`extents` with the cache equal the cache-less results and keep the invariant -/
+theorem cache_transparent_unique_handles (repr : Aff → Bool) (sb : SegBoxes) (fast : Bool) (f : Forest)
+    (hp : f.plainBlocks = true) (hn : f.handles.Nodup) (es : List Ent) (hsub : ∀ e ∈ es, e ∈ toEnts repr sb fast f)
+    (c c0 : Cache) (hc : c.Inv (truthOf (toEnts repr sb fast f))) :
+    (multiFlat true c es).1 = (multiFlat false c0 es).1 ∧ (extentsOf true c es).1 = (extentsOf false c0 es).1 ∧
+      (extentsOf true c es).2.Inv (truthOf (toEnts repr sb fast f)) ∧
+      (Cache.mk [] 0 0).Inv (truthOf (toEnts repr sb fast f)) := by
+  have hcoh := Lemmas.coherent_of_functional _ (Lemmas.functional_tree repr sb fast f hp hn)
+  obtain ⟨h1, h2, h3, _⟩ := Lemmas.cache_transparent_ents _ es c c0 hc (fun e he => hcoh e (hsub e he))
+  exact ⟨h1, h2, h3, fun e he => by simp at he⟩
+
+/-- `Cache.invalidate`: every listed entity is processed - cached or not, with or without key (HATCH, no handle), in any
+    order and with repetitions: the result depends only on the SET of invalidated keys; the counters are untouched -/
+theorem invalidate_spec (c : Cache) (ks : List (Option Nat)) :
+    (c.invalidate ks).boxes = c.boxes.filter (fun e => !(ks.contains (some e.1))) ∧
+      (c.invalidate ks).hits = c.hits ∧ (c.invalidate ks).misses = c.misses :=
+  Lemmas.invalidate_boxes ks c
+
+/-- compute / modify / invalidate / compute: a cache filled for the OLD boxes (`truth`) whose entities are then modified
+    (their boxes are now `truth'`) gives, after `invalidate` of at least every entity whose box changed (plus any other
+    entities, uncached ones included, in any order), exactly the results of a fresh computation without cache, and the
+    invariant for the new boxes holds again -/
+theorem invalidate_then_extents (truth truth' : Nat → Box3) (c c0 : Cache) (ks : List (Option Nat)) (es : List Ent)
+    (hc : c.Inv truth) (hch : ∀ k, truth k ≠ truth' k → some k ∈ ks) (he : ∀ e ∈ es, e.Coherent truth') :
+    (multiFlat true (c.invalidate ks) es).1 = (multiFlat false c0 es).1 ∧
+      (extentsOf true (c.invalidate ks) es).1 = (extentsOf false c0 es).1 ∧
+      (extentsOf true (c.invalidate ks) es).2.Inv truth' := by
+  obtain ⟨h1, h2, h3, _⟩ := Lemmas.cache_transparent_ents truth' es (c.invalidate ks) c0
+    (Lemmas.invalidate_inv truth truth' c ks hc hch) he
+  exact ⟨h1, h2, h3⟩
+
+-- the hypothesis is needed: with a stale entry left (an entity that was not invalidated) the cache changes the result
+#guard (extentsOf true ((Cache.mk [(9, .mk ⟨0, 0, 0⟩ ⟨9, 9, 9⟩), (7, exTruth 7)] 0 0).invalidate [none, some 4]) exEnts).1
+  != (extentsOf false ⟨[], 0, 0⟩ exEnts).1
+#guard (extentsOf true ((Cache.mk [(9, .mk ⟨0, 0, 0⟩ ⟨9, 9, 9⟩), (7, exTruth 7)] 0 0).invalidate [none, some 4, some 9]) exEnts).1
+  == (extentsOf false ⟨[], 0, 0⟩ exEnts).1
+
+/-- virtual entities are never cached: after `multi_flat`/`extents` over a tree, with or without hits, every key
+    in the cache is an old key or the handle of a real entity -/
+theorem cache_never_stores_virtual (repr : Aff → Bool) (sb : SegBoxes) (fast uc : Bool) (c : Cache) (f : Forest)
+    (hp : f.plainBlocks = true) :
+    ∀ k ∈ (multiFlat uc c (toEnts repr sb fast f)).2.keys, k ∈ c.keys ∨ k ∈ f.handles :=
+  Lemmas.tree_cache_keys repr sb fast uc c f hp
+
+/-- the matrix of an INSERT (`insertAff`, extrusion (0,0,1)) is `p' = R * S * (p - base) + insert`; a MINSERT grid cell
+    moves it by the rotated, unscaled offset -/
+theorem insert_matrix_spec (base scale ins : V3) (co si ox oy : Rat) (p : V3) :
+    (insertAff base scale ins co si).apply p =
+      ⟨co * (scale.x * (p.x - base.x)) - si * (scale.y * (p.y - base.y)) + ins.x,
+       si * (scale.x * (p.x - base.x)) + co * (scale.y * (p.y - base.y)) + ins.y,
+       scale.z * (p.z - base.z) + ins.z⟩ ∧
+    (gridAff (insertAff base scale ins co si) co si ox oy).apply p =
+      ⟨((insertAff base scale ins co si).apply p).x + (co * ox - si * oy),
+       ((insertAff base scale ins co si).apply p).y + (si * ox + co * oy), ((insertAff base scale ins co si).apply p).z⟩ :=
+  ⟨Lemmas.insertAff_apply base scale ins co si p, Lemmas.gridAff_apply _ co si ox oy p⟩
+
+/-- MINSERT: the leaves of `minsert` (what `recursive_decompose(entity.multi_insert())` is modelled by) are the
+    leaves of the block once per grid cell (rows outside, columns inside), each under the cell matrix, followed by the
+    rest of the layout; together with `nested_bbox`/`nested_contains`/`nested_tight` this covers MINSERT grids at any depth -/
+theorem minsert_spec (key : Option Nat) (m : Aff) (co si cs rs : Rat) (cols rows : Nat) (block rest : Forest)
+    (hb : block.noAtts = true) (hr : rest.plainBlocks = true) :
+    (minsert key m co si cs rs cols rows block rest).plainBlocks = true ∧
+    placements Aff.one (minsert key m co si cs rs cols rows block rest) =
+      (List.range rows).flatMap (fun (r : Nat) => (List.range cols).flatMap (fun (c : Nat) =>
+        placements (gridAff m co si ((c : Rat) * cs) ((r : Rat) * rs)) block)) ++ placements Aff.one rest :=
+  ⟨Lemmas.minsert_plainBlocks key m co si cs rs cols rows block rest hb hr,
+   Lemmas.placements_minsert key m co si cs rs cols rows block rest⟩
+
+/-- non-vacuity: block B = {LINE, INSERT of block A with an irrational-free rotation by 90 degrees}, block A = {LINE};
+    the layout holds a LINE (handle 1) and an INSERT of B (handle 2, scaled by 2 in x, with an ATTRIB, handle 3) -/
+private def rot90 : Aff := ⟨0, -1, 0, 1, 0, 0, 0, 0, 1, 5, 0, 0⟩
+private def scaleX2 : Aff := ⟨2, 0, 0, 0, 1, 0, 0, 0, 1, 0, 10, 0⟩
+private def lineP (a b : V3) : Path := ⟨a, [.lineTo b]⟩
+private def blockA : Forest := .leaf (some 20) (lineP ⟨0, 0, 0⟩ ⟨1, 0, 0⟩) .nil
+private def blockB : Forest := .leaf (some 21) (lineP ⟨0, 0, 0⟩ ⟨0, 1, 0⟩) (.insert (some 22) rot90 [] blockA .nil)
+private def exForest : Forest :=
+  .leaf (some 1) (lineP ⟨-1, -1, 0⟩ ⟨0, 0, 0⟩) (.insert (some 2) scaleX2 [⟨some 3, lineP ⟨7, 7, 0⟩ ⟨8, 7, 0⟩⟩] blockB .nil)
+private def noSb : SegBoxes := ⟨fun _ _ _ _ => .empty, fun _ _ _ => .empty⟩
+#guard exForest.plainBlocks && exForest.depth == 2
+-- INSERT absorbed (`repr` always true) or always exploded: the same flat stream
+#guard decompose (fun _ => true) exForest == decompose (fun _ => false) exForest
+#guard (decompose (fun _ => false) exForest).map Leaf.path == worldPaths exForest
+#guard (decompose (fun _ => true) exForest).map Leaf.key == [some 1, some 3, none, none]
+#guard (extentsOf false ⟨[], 0, 0⟩ (toEnts (fun _ => false) noSb false exForest)).1 == .mk ⟨-1, -1, 0⟩ ⟨10, 11, 0⟩
+#guard (extentsOf true ⟨[], 0, 0⟩ (toEnts (fun _ => true) noSb true exForest)).2.keys == [2, 3, 1]
+example : exForest.handles.Nodup := by decide
+-- a 3 x 2 grid of block A (one LINE) with spacing 4 / 5 under a rotation by 90 degrees
+#guard (extentsOf false ⟨[], 0, 0⟩ (toEnts (fun _ => false) noSb false
+    (minsert (some 9) (insertAff ⟨0, 0, 0⟩ ⟨1, 1, 1⟩ ⟨0, 0, 0⟩ 0 1) 0 1 4 5 3 2 (.leaf none ⟨⟨0, 0, 0⟩, [.lineTo ⟨1, 0, 0⟩]⟩ .nil) .nil))).1
+  == .mk ⟨-5, 0, 0⟩ ⟨0, 9, 0⟩
+#guard truthOf (toEnts (fun _ => true) noSb true exForest) 2 == .mk ⟨0, 7, 0⟩ ⟨10, 11, 0⟩
+
+/-! ## `ezdxf.select`: selection shapes against the bounding box of an entity -/
+
+/-- `select.Circle`: `bbox_overlap` selects exactly the boxes that share a point with the disc, `bbox_outside` exactly
+    the others, `bbox_inside` exactly the boxes that lie in the disc (radius >= 0, squared distances) -/
+theorem select_circle_spec (s : SelCircle) (hr : 0 ≤ s.r) (lo hi : V2) (hwf : (Box2.mk lo hi).WF) :
+    (s.overlapping (.mk lo hi) = true ↔ ∃ p, (Box2.mk lo hi).inside p = true ∧ dist2 s.c p ≤ s.r * s.r) ∧
+    (s.outside (.mk lo hi) = true ↔ ¬∃ p, (Box2.mk lo hi).inside p = true ∧ dist2 s.c p ≤ s.r * s.r) ∧
+    (s.inside (.mk lo hi) = true ↔ ∀ p, (Box2.mk lo hi).inside p = true → dist2 s.c p ≤ s.r * s.r) := by
+  have h1 := Lemmas.circle_overlap_iff s hr lo hi hwf
+  refine ⟨h1, ?_, Lemmas.circle_inside_iff s lo hi hwf⟩
+  rw [← h1]; simp [SelCircle.outside]
+
+/-- `select.Window`: inside = the box lies in the window, overlap = they share a point, outside = they do not -/
+theorem select_window_spec (w : SelWindow) (lo hi : V2) (hwf : (Box2.mk lo hi).WF) :
+    (w.inside (.mk lo hi) = true ↔ ∀ p, (Box2.mk lo hi).inside p = true → w.bbox.inside p = true) ∧
+    (w.overlapping (.mk lo hi) = true ↔ ∃ p, w.bbox.inside p = true ∧ (Box2.mk lo hi).inside p = true) ∧
+    (w.outside (.mk lo hi) = true ↔ ¬∃ p, w.bbox.inside p = true ∧ (Box2.mk lo hi).inside p = true) := by
+  have h2 := has_overlap2_iff_common_point w.bbox (.mk lo hi) (extents2_wf _) hwf
+  refine ⟨contains2_iff_subset w.bbox lo hi hwf, h2, ?_⟩
+  rw [← h2]; simp [SelWindow.outside, SelWindow.bbox]
+
+/-- `cube_vertices` / `rect_vertices`: the box is the box of its corners, every corner is inside, and another box
+    contains it iff it contains the corners; `Circle.is_inside_bbox` tests exactly the `rect_vertices` -/
+theorem box_vertices_spec (lo hi : V3) (hwf : (Box3.mk lo hi).WF) (B : Box3) (s : SelCircle) (lo2 hi2 : V2) :
+    (∃ vs, (Box3.mk lo hi).cubeVertices = some vs ∧ extents3 vs = .mk lo hi ∧
+      (B.contains (.mk lo hi) = true ↔ ∀ v ∈ vs, B.inside v = true)) ∧
+    (Box3.mk lo hi).rectVertices = (Box2.mk lo.to2 hi.to2).rectVertices ∧
+    s.inside (.mk lo2 hi2) = ((Box2.mk lo2 hi2).rectVertices.map (fun vs => vs.all s.vertexInside)).getD false := by
+  obtain ⟨h1, h2, h3⟩ := hwf
+  refine ⟨⟨_, rfl, ?_, ?_⟩, rfl, ?_⟩
+  · obtain ⟨a, b, c⟩ := lo
+    obtain ⟨d, e, f⟩ := hi
+    simp only at h1 h2 h3
+    simp [extents3, V3.vmin, V3.vmax, min_eq_left h1, min_eq_left h2, min_eq_left h3, max_eq_right h1,
+      max_eq_right h2, max_eq_right h3, max_eq_left h1, max_eq_left h2]
+  · cases B with
+    | empty =>
+      constructor
+      · intro h; simp [Box3.contains, Box3.inside] at h
+      · intro h
+        have := h ⟨lo.x, lo.y, lo.z⟩ (by simp)
+        simp [Box3.inside] at this
+    | mk blo bhi =>
+      simp only [Box3.contains, Bool.and_eq_true, inside_mk_iff, List.mem_cons, List.not_mem_nil, or_false,
+        forall_eq_or_imp, forall_eq]
+      constructor
+      · rintro ⟨⟨a1, a2, a3, a4, a5, a6⟩, ⟨b1, b2, b3, b4, b5, b6⟩⟩
+        refine ⟨⟨?_, ?_, ?_, ?_, ?_, ?_⟩, ⟨?_, ?_, ?_, ?_, ?_, ?_⟩, ⟨?_, ?_, ?_, ?_, ?_, ?_⟩, ⟨?_, ?_, ?_, ?_, ?_, ?_⟩,
+          ⟨?_, ?_, ?_, ?_, ?_, ?_⟩, ⟨?_, ?_, ?_, ?_, ?_, ?_⟩, ⟨?_, ?_, ?_, ?_, ?_, ?_⟩, ⟨?_, ?_, ?_, ?_, ?_, ?_⟩⟩ <;> linarith
+      · rintro ⟨c1, -, -, -, -, -, c7, -⟩
+        exact ⟨c1, c7⟩
+  · simp [SelCircle.inside, Box2.rectVertices, Bool.and_assoc]
+
+-- the input of the defect fixed by 3994f1031: a small circle inside a large box overlaps it
+#guard (SelCircle.mk ⟨10, 10⟩ 1).overlapping (.mk ⟨0, 0⟩ ⟨100, 100⟩) && !(SelCircle.mk ⟨10, 10⟩ 1).outside (.mk ⟨0, 0⟩ ⟨100, 100⟩)
+#guard (SelCircle.mk ⟨50, -1/2⟩ 1).overlapping (.mk ⟨0, 0⟩ ⟨100, 100⟩) && !(SelCircle.mk ⟨50, -2⟩ 1).overlapping (.mk ⟨0, 0⟩ ⟨100, 100⟩)
+
+/-! ## the Bézier approximation of circular arcs (`cubic_bezier_arc_parameters`, used by `make_path` for ARC, CIRCLE,
+bulges and, through a linear map, ELLIPSE) -/
+
+/-- Exact radial error of one segment: with `u = tan(segment_angle / 4)` (any rational `u`), start point `s`, `w = 2t - 1`:
+    `|B(t)|^2 = |s|^2 (1 + u^6 w^2 (1 - w^2)^2 / (1 + u^2)^2)`.  For `|s| = 1` and `t` in [0, 1] the curve therefore never cuts
+    inside the circle and `|B(t)|^2 <= 1 + 4 u^6 / (27 (1 + u^2)^2)`; for the segments the code builds (at most 90 degrees,
+    `u <= tan(pi/8) < 5/12`) this is `|B(t)| <= 1.0004`: the precise box of an arc is never smaller than the circle's
+    geometry demands on the covered segment and larger by at most 0.04 % of the radius. -/
+theorem arc_bezier_radial_error (u : Rat) (s : V2) (t : Rat) :
+    arcCurveNorm2 u s t =
+      (s.x * s.x + s.y * s.y) * (1 + u ^ 6 * (2 * t - 1) ^ 2 * (1 - (2 * t - 1) ^ 2) ^ 2 / (1 + u * u) ^ 2) ∧
+    (s.x * s.x + s.y * s.y = 1 → 0 ≤ t → t ≤ 1 →
+      1 ≤ arcCurveNorm2 u s t ∧ arcCurveNorm2 u s t ≤ 1 + 4 * u ^ 6 / (27 * (1 + u * u) ^ 2)) ∧
+    (s.x * s.x + s.y * s.y = 1 → 0 ≤ t → t ≤ 1 → 0 ≤ u → u ≤ 5 / 12 →
+      arcCurveNorm2 u s t ≤ (1 + 4 / 10000) * (1 + 4 / 10000)) := by
+  refine ⟨Lemmas.arc_norm2_closed u s t, fun hs h0 h1 => Lemmas.arc_radial_bounds u s hs t h0 h1, ?_⟩
+  intro hs h0 h1 hu0 hu1
+  have hb := (Lemmas.arc_radial_bounds u s hs t h0 h1).2
+  have h6 : u ^ 6 ≤ (5 / 12 : Rat) ^ 6 := pow_le_pow_left₀ hu0 hu1 6
+  have hD : (1 : Rat) ≤ (1 + u * u) ^ 2 := by nlinarith [mul_self_nonneg u, mul_self_nonneg (u * u)]
+  have hfrac : 4 * u ^ 6 / (27 * (1 + u * u) ^ 2) ≤ 4 * u ^ 6 / 27 := by
+    apply div_le_div_of_nonneg_left (by positivity) (by norm_num) (by linarith)
+  have : 4 * u ^ 6 / 27 ≤ 4 * (5 / 12 : Rat) ^ 6 / 27 := by
+    apply div_le_div_of_nonneg_right _ (by norm_num); linarith
+  have hnum : 4 * (5 / 12 : Rat) ^ 6 / 27 ≤ (1 + 4 / 10000) * (1 + 4 / 10000) - 1 := by norm_num
+  linarith
+
+/-- The statement about arcs, over the reals with real angles: for EVERY direction `φ` inside an arc segment
+    `[θ, θ + α]`, `0 < α <= 90 degrees` (the code builds `ceil(sweep / 90 degrees)` equal segments), the Bézier curve whose
+    control points `cubic_bezier_arc_parameters` computes (`arcXr`, `arcYr` = the model's `arcSegment` with
+    `u = tan(α / 4)`, shown equal to the rational model by `arc_curve_cast`) has a point `ρ (cos φ, sin φ)` with
+    `1 <= ρ <= 1.0004`.  (Intermediate value theorem for the cubic + the exact radial identity; by
+    `bezier_affine_invariant` the same holds for any center, radius and for ellipses.)  Consequently the approximating
+    path reaches at least as far as the true arc in every direction in which the arc point has a non-negative support
+    value, in particular at the axis extremes 0, 90, 180, 270 degrees: the precise box of the path contains the box of
+    the true arc and exceeds the circle by at most 0.04 % of the radius. -/
+theorem arc_segment_covers (θ α φ : ℝ) (hα0 : 0 < α) (hα : α ≤ Real.pi / 2) (h1 : θ ≤ φ) (h2 : φ ≤ θ + α) :
+    ∃ t : ℝ, 0 ≤ t ∧ t ≤ 1 ∧ ∃ ρ : ℝ, 1 ≤ ρ ∧ ρ ≤ 1 + 4 / 10000 ∧
+      Lemmas.arcXr (Real.tan (α / 4)) (Real.cos θ) (Real.sin θ) t = ρ * Real.cos φ ∧
+      Lemmas.arcYr (Real.tan (α / 4)) (Real.cos θ) (Real.sin θ) t = ρ * Real.sin φ :=
+  Lemmas.arc_segment_covers θ α φ hα0 hα h1 h2
+
+/-- The converse: EVERY point of the approximating curve of the segment is `ρ (cos ψ, sin ψ)` for an angle `ψ` of the
+    segment and `1 <= ρ <= 1.0004`.  With `arc_segment_covers`: the curve lies in the annular sector of the arc and
+    meets every ray of it, so the Hausdorff distance between the Bézier path `make_path` builds for an arc and the true
+    arc is at most 0.0004 r (`arc_hausdorff`), and their bounding boxes differ by at most that on every side. -/
+theorem arc_curve_in_sector (θ α t : ℝ) (hα0 : 0 < α) (hα : α ≤ Real.pi / 2) (t0 : 0 ≤ t) (t1 : t ≤ 1) :
+    ∃ ψ : ℝ, θ ≤ ψ ∧ ψ ≤ θ + α ∧ ∃ ρ : ℝ, 1 ≤ ρ ∧ ρ ≤ 1 + 4 / 10000 ∧
+      Lemmas.arcXr (Real.tan (α / 4)) (Real.cos θ) (Real.sin θ) t = ρ * Real.cos ψ ∧
+      Lemmas.arcYr (Real.tan (α / 4)) (Real.cos θ) (Real.sin θ) t = ρ * Real.sin ψ :=
+  Lemmas.arc_curve_in_sector θ α t hα0 hα t0 t1
+
+/-- Hausdorff distance <= 0.0004 (unit circle; coordinatewise, hence also Euclidean): every point of the arc has a curve
+    point within 0.0004 in both coordinates and vice versa -/
+theorem arc_hausdorff (θ α : ℝ) (hα0 : 0 < α) (hα : α ≤ Real.pi / 2) :
+    (∀ φ : ℝ, θ ≤ φ → φ ≤ θ + α → ∃ t : ℝ, 0 ≤ t ∧ t ≤ 1 ∧
+      |Lemmas.arcXr (Real.tan (α / 4)) (Real.cos θ) (Real.sin θ) t - Real.cos φ| ≤ 4 / 10000 ∧
+      |Lemmas.arcYr (Real.tan (α / 4)) (Real.cos θ) (Real.sin θ) t - Real.sin φ| ≤ 4 / 10000) ∧
+    (∀ t : ℝ, 0 ≤ t → t ≤ 1 → ∃ ψ : ℝ, θ ≤ ψ ∧ ψ ≤ θ + α ∧
+      |Lemmas.arcXr (Real.tan (α / 4)) (Real.cos θ) (Real.sin θ) t - Real.cos ψ| ≤ 4 / 10000 ∧
+      |Lemmas.arcYr (Real.tan (α / 4)) (Real.cos θ) (Real.sin θ) t - Real.sin ψ| ≤ 4 / 10000) := by
+  have key : ∀ ρ c : ℝ, 1 ≤ ρ → ρ ≤ 1 + 4 / 10000 → -1 ≤ c → c ≤ 1 → |ρ * c - c| ≤ 4 / 10000 := by
+    intro ρ c h1 h2 c1 c2
+    rw [abs_le]; constructor <;> nlinarith
+  constructor
+  · intro φ h1 h2
+    obtain ⟨t, t0, t1, ρ, r1, r2, hx, hy⟩ := Lemmas.arc_segment_covers θ α φ hα0 hα h1 h2
+    exact ⟨t, t0, t1, by rw [hx]; exact key ρ _ r1 r2 (Real.neg_one_le_cos φ) (Real.cos_le_one φ),
+      by rw [hy]; exact key ρ _ r1 r2 (Real.neg_one_le_sin φ) (Real.sin_le_one φ)⟩
+  · intro t t0 t1
+    obtain ⟨ψ, p0, p1, ρ, r1, r2, hx, hy⟩ := Lemmas.arc_curve_in_sector θ α t hα0 hα t0 t1
+    exact ⟨ψ, p0, p1, by rw [hx]; exact key ρ _ r1 r2 (Real.neg_one_le_cos ψ) (Real.cos_le_one ψ),
+      by rw [hy]; exact key ρ _ r1 r2 (Real.neg_one_le_sin ψ) (Real.sin_le_one ψ)⟩
+
+/-- the whole arc as the code splits it: `n` equal segments of angle `α <= 90 degrees`, segment `k` starting at
+    `a0 + k α`: every direction of `[a0, a0 + n α]` is met by one of the segment curves at a distance in [1, 1.0004] -/
+theorem arc_path_covers (a0 α φ : ℝ) (n : ℕ) (hn : 0 < n) (hα0 : 0 < α) (hα : α ≤ Real.pi / 2) (h0 : a0 ≤ φ)
+    (h1 : φ ≤ a0 + n * α) :
+    ∃ k : ℕ, k < n ∧ ∃ t : ℝ, 0 ≤ t ∧ t ≤ 1 ∧ ∃ ρ : ℝ, 1 ≤ ρ ∧ ρ ≤ 1 + 4 / 10000 ∧
+      Lemmas.arcXr (Real.tan (α / 4)) (Real.cos (a0 + k * α)) (Real.sin (a0 + k * α)) t = ρ * Real.cos φ ∧
+      Lemmas.arcYr (Real.tan (α / 4)) (Real.cos (a0 + k * α)) (Real.sin (a0 + k * α)) t = ρ * Real.sin φ :=
+  Lemmas.arc_path_covers a0 α φ n hn hα0 hα h0 h1
+
+/-- in every direction `a` in which the true arc point at angle `φ` has a non-negative support value, some point of
+    the approximating curve reaches at least as far -/
+theorem arc_support_dominated (θ α φ ax ay : ℝ) (hα0 : 0 < α) (hα : α ≤ Real.pi / 2) (h1 : θ ≤ φ) (h2 : φ ≤ θ + α)
+    (hsup : 0 ≤ ax * Real.cos φ + ay * Real.sin φ) :
+    ∃ t : ℝ, 0 ≤ t ∧ t ≤ 1 ∧ ax * Real.cos φ + ay * Real.sin φ ≤
+      ax * Lemmas.arcXr (Real.tan (α / 4)) (Real.cos θ) (Real.sin θ) t +
+        ay * Lemmas.arcYr (Real.tan (α / 4)) (Real.cos θ) (Real.sin θ) t := by
+  obtain ⟨t, t0, t1, ρ, hρ, _, hx, hy⟩ := Lemmas.arc_segment_covers θ α φ hα0 hα h1 h2
+  refine ⟨t, t0, t1, ?_⟩
+  rw [hx, hy]
+  nlinarith
+
+/-- the real curve is the model's curve for rational data, and the end point of the model is the start point
+    rotated by the segment angle when `u = tan(angle / 4)` -/
+theorem arc_curve_cast (u : ℚ) (s : V2) (t : ℚ) (θ α : ℝ) (h0 : -(Real.pi / 2) < α / 4) (h1 : α / 4 < Real.pi / 2) :
+    Lemmas.arcXr u s.x s.y t ^ 2 + Lemmas.arcYr u s.x s.y t ^ 2 = ((arcCurveNorm2 u s t : ℚ) : ℝ) ∧
+    Lemmas.rotQ (Real.tan (α / 4)) (Real.cos θ) (Real.sin θ) = (Real.cos (θ + α), Real.sin (θ + α)) := by
+  refine ⟨?_, Lemmas.rotQ_trig θ α h0 h1⟩
+  obtain ⟨hx, hy⟩ := Lemmas.arcXr_cast u s (t : ℝ)
+  rw [hx, hy]
+  simp only [Lemmas.arcX, Lemmas.arcY, arcCurveNorm2, Lemmas.bezR_cast]
+  push_cast
+  ring
+
+-- a quarter circle (u ~ tan(pi/8) approximated by 29/70 from below): mid-segment error
+#guard arcCurveNorm2 (29 / 70) ⟨1, 0⟩ (1 / 2) == 1
+#guard decide (1 < arcCurveNorm2 (29 / 70) ⟨1, 0⟩ (1 / 4) ∧ arcCurveNorm2 (29 / 70) ⟨1, 0⟩ (1 / 4) < 1 + 6 / 10000)
+
+end session3
+
+/-! ## session 3 kernels: the loop body of `precise_bbox` and the per-axis body of `cubic_bezier_bbox`, translated
+from the current source, equal the hand model for all inputs -/
+section kernels3
+open EzdxfVerif.Gen.BBoxKernels
+
+/-- the loop body of `precise_bbox` in the current source, per command type: appended points and new pen position
+    (a curve box always has data: it is given by its two corners) -/
+theorem kernel_precise_step (bb4 : V3 → V3 → V3 → V3 → V3 × V3) (bb3 : V3 → V3 → V3 → V3 × V3) (s e c1 c2 c : V3) :
+    let sb : SegBoxes := ⟨fun a b c d => .mk (bb4 a b c d).1 (bb4 a b c d).2, fun a b c => .mk (bb3 a b c).1 (bb3 a b c).2⟩
+    commandCodes = [("LINE_TO", 1), ("CURVE3_TO", 2), ("CURVE4_TO", 3), ("MOVE_TO", 4)] ∧
+    preciseStep bb4 bb3 Prod.fst Prod.snd 1 s e c1 c2 c = Path.preciseStep sb s (.lineTo e) ∧
+    preciseStep bb4 bb3 Prod.fst Prod.snd 2 s e c1 c2 c = Path.preciseStep sb s (.curve3To c e) ∧
+    preciseStep bb4 bb3 Prod.fst Prod.snd 3 s e c1 c2 c = Path.preciseStep sb s (.curve4To c1 c2 e) ∧
+    preciseStep bb4 bb3 Prod.fst Prod.snd 4 s e c1 c2 c = Path.preciseStep sb s (.moveTo e) := by
+  intro sb
+  refine ⟨rfl, ?_, ?_, ?_, ?_⟩ <;> simp [preciseStep, Path.preciseStep, Box3.iter, sb]
+
+private theorem ite_pair_list (P Q : Prop) [Decidable P] [Decidable Q] (a b : Rat) :
+    (if P then (if Q then [a, b] else [a]) else (if Q then [b] else [])) =
+      (if P then [a] else []) ++ (if Q then [b] else []) := by
+  split_ifs <;> rfl
+
+/-- the per-axis body of `cubic_bezier_bbox` in the current source collects exactly the parameters of the model -/
+theorem kernel_cubic_params (tol : Rat) (sqrt : Rat → Option Rat) (p1 p2 p3 p4 : Rat) :
+    cubicAxisParams tol sqrt p1 p2 p3 p4 = axisParams tol sqrt p1 p2 p3 p4 := by
+  have e1 : pyAbs = rabs := rfl
+  have e2 : pyCopysign = copysign := rfl
+  simp only [cubicAxisParams, axisParams]
+  rw [e1, e2]
+  by_cases ha : rabs (3 * (-p1 + 3 * p2 - 3 * p3 + p4)) < tol
+  · simp only [ha, if_true]
+    by_cases hb : rabs (6 * (p1 - 2 * p2 + p3)) < tol <;> simp only [hb, if_true, if_false]
+  · simp only [ha, if_false]
+    cases sqrt (6 * (p1 - 2 * p2 + p3) * (6 * (p1 - 2 * p2 + p3)) - 4 * (3 * (-p1 + 3 * p2 - 3 * p3 + p4)) * (3 * (p2 - p1))) with
+    | none => rfl
+    | some s =>
+      simp only
+      split_ifs <;> rfl
+
+/-- `quadratic_to_cubic_bezier` in the current source is the degree elevation of the model -/
+theorem kernel_quad_elevation (s c e : Rat) : quadControl1 s c e = elev s c ∧ quadControl2 s c e = elev e c :=
+  ⟨rfl, rfl⟩
+
+/-- `select.Circle.is_overlapping_bbox` in the current source tests the clamped center (the closest point of the box) -/
+theorem kernel_circle_overlap (ho : Bool) (c lo hi : V2) :
+    circleOverlap ho c.x c.y lo.x lo.y hi.x hi.y =
+      if ho then some (clamp c.x lo.x hi.x, clamp c.y lo.y hi.y) else none := by
+  cases ho <;> simp [circleOverlap, clamp, pyMin_eq, pyMax_eq]
+
+/-- the control points `cubic_bezier_arc_parameters` builds in the current source are those of the model, and
+    `TANGENT_FACTOR` is 4/3 -/
+theorem kernel_arc_segment (s e : V2) (L u : Rat) :
+    arcSegment s e L = (s, ⟨(arcControlPoint1 s.x s.y L).1, (arcControlPoint1 s.x s.y L).2⟩,
+      ⟨(arcControlPoint2 e.x e.y L).1, (arcControlPoint2 e.x e.y L).2⟩, e) ∧
+    arcTangentLength u = arcTangentFactor * u := by
+  constructor
+  · simp [arcSegment, arcControlPoint1, arcControlPoint2]
+  · simp [arcTangentLength, arcTangentFactor]
+
+/-- `rect_vertices` and `cube_vertices` in the current source list the corners of the model, in the same order -/
+theorem kernel_vertices (lo hi : V3) (lo2 hi2 : V2) :
+    (Box3.mk lo hi).cubeVertices = some ((cubeVertices3 lo.x lo.y lo.z hi.x hi.y hi.z).map (fun p => ⟨p.1, p.2.1, p.2.2⟩)) ∧
+    (Box3.mk lo hi).rectVertices = some ((rectVertices3 lo.x lo.y lo.z hi.x hi.y hi.z).map (fun p => ⟨p.1, p.2⟩)) ∧
+    (Box2.mk lo2 hi2).rectVertices = some ((rectVertices2 lo2.x lo2.y hi2.x hi2.y).map (fun p => ⟨p.1, p.2⟩)) := by
+  refine ⟨?_, ?_, ?_⟩ <;> simp [Box3.cubeVertices, Box3.rectVertices, Box2.rectVertices, cubeVertices3, rectVertices3, rectVertices2]
+
+end kernels3
 
 end EzdxfVerif.Props.C15
